@@ -498,3 +498,61 @@ Proof.
   destruct (g_strict g); [discriminate|].
   unfold print_error. destruct (format_error e k_warning); cbn; discriminate.
 Qed.
+
+(* ---------------------------------------------------------------------------------- *)
+(* every class: what the constructors build is well-formed, hence renders *)
+
+Lemma fname_of_not_bad o : fname_of o <> FnBad.
+Proof. destruct o; discriminate. Qed.
+
+Lemma scan_state_wf p : scan_state_ok p -> wf_ctx (CScan (sc_text p) (Some (sc_lineno p)) (sc_pos p)).
+Proof.
+  intros (pre & c0 & r & Ht & _ & Hc0 & Hl). cbn [wf_ctx]. rewrite Ht.
+  pose proof (scanner_lineno_in_range (length pre) pre (le_n _) [] c0 r Hc0) as Hlt.
+  unfold splitlines. lia.
+Qed.
+
+Lemma constructed_wf e : constructed e -> wf_err e.
+Proof.
+  intros H. destruct H as [id msg fn Hfn|id etype msg p|id desc p Hok|id desc p start Hok|id msg c];
+    (split; [cbn; auto using fname_of_not_bad|cbn [e_ctx new_pybtex_error new_syntax_error new_token_required new_token_required_bib new_aux_error]]).
+  - exact I.
+  - exact I.
+  - now apply scan_state_wf.
+  - destruct Hok as (s & -> & H1 & H2). now apply bib_ctx_wellformed.
+  - exact I.
+Qed.
+
+Lemma format_error_total_by_class e p :
+  constructed e ->
+  exists s lines,
+    format_error e p = Ok s /\
+    s = join [10%N] (map (fname_prefix e) (lines ++ [p ++ err_str e])) /\
+    infix (p ++ err_str e) s /\ infix (e_msg e) s.
+Proof. intros H. apply format_error_total, constructed_wf, H. Qed.
+
+(* the only records excluded are those with a file name that is not text: exactly F27's shape *)
+Lemma not_constructed_plain id msg : ~ wf_err (new_pybtex_error id msg FnBad).
+Proof. intros [H _]. now apply H. Qed.
+
+(* what Scanner.required raises is one of the constructed errors *)
+Lemma scanner_required_constructed text lit (f : option str) id e :
+  scanner_required text lit (fname_of f) id = inr e -> constructed e.
+Proof.
+  unfold scanner_required.
+  destruct (span_space text) as [ws rest] eqn:Es.
+  destruct (span_space_spec text ws rest Es) as [Ht Hr].
+  destruct rest as [|c0 r].
+  - intros H; injection H as <-.
+    apply (C_syntax id k_syntax_error k_premature_end_of_file
+             (mkScanner text f (Z.of_nat (1 + count_newlines ws)) (Z.of_nat (length ws)))).
+  - destruct (startswith (c0 :: r) lit); [discriminate|].
+    intros H; injection H as <-.
+    set (sc := mkScanner text f (Z.of_nat (1 + count_newlines ws)) (Z.of_nat (length ws))).
+    match goal with |- constructed ?x =>
+      replace x with (new_token_required id ([39%N] ++ lit ++ [39%N]) sc)
+        by (unfold new_token_required, sc; cbn [sc_text sc_filename sc_lineno sc_pos]; f_equal;
+            now rewrite <- !app_assoc) end.
+    apply C_token. unfold sc.
+    exists ws, c0, r. cbn [sc_text sc_pos sc_lineno]. repeat split; auto using nonspace_not_lb; lia.
+Qed.
